@@ -129,7 +129,7 @@ def main():
         "checks": checks,
         "not_applicable": [],
         "notes": "All 20 properties are claimed at clause level (level 'other'): each check decides necessary structural conditions of the property and lists the behavioural remainder it does NOT decide "
-                 "in level_claimed.text and in evidence coverage.explanation. Genuine defects found: D1-D7, D9, D11-D38, D41-D47, D50, D51 repaired by one 'fix:' commit each in /repo (D22-D36 found by an audit of the unchanged tree by independent sub-agents, DESIGN 9.8); D8, D10, D39, D40, D48 and D49 recorded in known_findings.json (the checks print KNOWN-FINDING for exactly those keys). "
+                 "in level_claimed.text and in evidence coverage.explanation. Genuine defects found: D1-D7, D9, D11-D38, D41-D47, D50, D51 repaired by one 'fix:' commit each in /repo (D22-D36 found by an audit of the unchanged tree by independent sub-agents, DESIGN 9.8); D8, D10, D39, D40, D48, D49, D52 and D53 recorded in known_findings.json (the checks print KNOWN-FINDING for exactly those keys). "
                  "Exit codes: 0 held / only known findings, 1 VIOLATION, 2 ANALYSIS-ERROR (fail closed).",
     }
     with open(os.path.join(HERE, "MANIFEST.json"), "w") as f:
